@@ -95,6 +95,7 @@ typedef struct {
     ssize_t *rets;
     char err[160];
 } read_res;
+extern int g_read_recover;
 read_res lib_read_ctx(zckCtx *zck, const int *sched, int nsched, size_t cap, bool want_rets);
 read_res lib_read_all(int fd, const int *sched, int nsched, size_t cap, bool want_rets);
 void read_res_print(const read_res *r, FILE *out, bool want_rets);
